@@ -11803,9 +11803,11 @@ func (l *Lowerer) foldClamp(val, lo, hi ir.LiteralValue) (ir.ExpressionHandle, b
 		v, _ := literalToI64(val)
 		low, _ := literalToI64(lo)
 		high, _ := literalToI64(hi)
+		// min(max(e, low), high): with low > high the result is high.
 		if v < low {
 			v = low
-		} else if v > high {
+		}
+		if v > high {
 			v = high
 		}
 		return l.interruptEmitter(ir.Expression{
@@ -11816,9 +11818,11 @@ func (l *Lowerer) foldClamp(val, lo, hi ir.LiteralValue) (ir.ExpressionHandle, b
 		v, _ := literalToF64(val)
 		low, _ := literalToF64(lo)
 		high, _ := literalToF64(hi)
+		// min(max(e, low), high): with low > high the result is high.
 		if v < low {
 			v = low
-		} else if v > high {
+		}
+		if v > high {
 			v = high
 		}
 		return l.interruptEmitter(ir.Expression{
